@@ -33,12 +33,12 @@ pub const DIMS: [(&str, u8); NDIM] = [
     ("shunting", 5),  // (minimal, deadHead): 0 (0,0) | 1 (300,0) | 2 (0,300) | 3 (600,600) | 4 (900,0): staying put needs longer than a quick dead-head
     ("forbid", 2),    // forbidDeadHeadTrips: 0 absent | 1 true
     ("depots", 11),   // 0 absent | 1 [] | 2 one depot cap 1 | 3 one depot cap 2 | 4 two depots cap 1 each | 5 total 5, per-type 1 | 6 type not listed | 7 two depots cap 5 | 8 two depots at the SAME location, cap 1 each | 9 one depot of total 2 where the first type has its own limit 1 and every other type is listed without one | 10 a depot of capacity 0 at L0 and a depot at L1 whose allowedTypes list is empty
-    ("maint", 8),     // 0 absent | 1 slot x1 track | 2 slot x2 tracks | 3 two slots | 4 slot overlapping/tying the trips | 5 slot but parameters.maintenance absent | 6 one slot x 4 tracks | 7 two slots at the same location that overlap in time
+    ("maint", 9),     // 0 absent | 1 slot x1 track | 2 slot x2 tracks | 3 two slots | 4 slot overlapping/tying the trips | 5 slot but parameters.maintenance absent | 6 one slot x 4 tracks | 7 two slots at the same location that overlap in time | 8 a five-minute slot at L0 (09:02-09:07, reachable from L1 only by a quick dead-head detour between two trips) plus the later slot at L1
     ("maxDist", 4),   // 0 large (1000 km) | 1 binding (60 km) | 2 beyond the stand-in distance of the overflow depot (30 000 km, the value of the repository's sample input) | 3 a fifth of one trip (10 km): every track of every slot is handed out
     ("deadHeads", 6), // 0 symmetric | 1 asymmetric | 2 slower than a service trip | 3 three locations, non-metric | 4 very quick (60 s) | 5 three locations where L1 and L2 are the same place (0 s, 0 m apart) and direction-1 trips leave from L2
     ("costs", 6),     // 0 default | 1 all zero | 2 dead-head cheaper than service | 3 idle dominant | 4 idle three orders of magnitude above everything else | 5 the default coefficients x 10 000 (a finer currency unit): every schedule costs more than 2^32
     ("seated", 2),    // 0 capacity binding | 1 seats binding
-    ("twoSeg", 2),    // 0 one-segment routes | 1 direction-0 departures run a two-segment route
+    ("twoSeg", 3),    // 0 one-segment routes | 1 direction-0 departures run a two-segment route | 2 direction-0 routes have three segments and their departures serve the first and the third only
     ("extraLoc", 2),  // 0 | 1 an unused third location
     ("nextDay", 2),   // 0 all trips on one day | 1 trips of departure slot 3 run on the following day (two planning days)
     ("shape", 4),     // how the same instance is written down: 0 plain | 1 deadHeadTrips.indices in the reverse order of the locations array | 2 every Optional[..] field that is unset is written as an explicit null | 3 every top-level array (and allowedTypes) listed in reverse
@@ -193,7 +193,7 @@ impl Inst {
 
     pub fn to_json(&self) -> Value {
         let c = &self.cfg;
-        let three_locs = c[D_DH] == 3 || c[D_DH] == 5 || c[D_EXTRALOC] == 1;
+        let three_locs = c[D_DH] == 3 || c[D_DH] >= 5 || c[D_EXTRALOC] == 1;
         let locs: Vec<&str> = if three_locs { vec!["L0", "L1", "L2"] } else { vec!["L0", "L1"] };
 
         // vehicle types
@@ -252,7 +252,21 @@ impl Inst {
             let lim1: Option<i64> = if c[D_SEGLIM] == 4 { None } else { lim };
             let rid = format!("r_{}_{}", tname, dir);
             let mut segs = vec![];
-            if c[D_TWOSEG] == 1 && dir == 0 {
+            if c[D_TWOSEG] == 2 && dir == 0 {
+                // three segments; departures skip the middle one (the vehicle waits at L1 meanwhile)
+                let mut s0 = json!({"id": format!("{}_s0", rid), "order": 0, "origin": o, "destination": d, "distance": 50000, "duration": 3600});
+                let s1 = json!({"id": format!("{}_s1", rid), "order": 1, "origin": d, "destination": d, "distance": 10000, "duration": 600});
+                let mut s2 = json!({"id": format!("{}_s2", rid), "order": 2, "origin": d, "destination": d, "distance": 15000, "duration": 900});
+                if let Some(l) = lim {
+                    s0["maximalFormationCount"] = json!(l);
+                }
+                if let Some(l) = lim1 {
+                    s2["maximalFormationCount"] = json!(l);
+                }
+                segs.push(s0);
+                segs.push(s1);
+                segs.push(s2);
+            } else if c[D_TWOSEG] == 1 && dir == 0 {
                 // L0 -> L1 in two halves via an intermediate stop at L1 (second half is a short shuttle L1 -> L1)
                 let mut s0 = json!({"id": format!("{}_s0", rid), "order": 0, "origin": o, "destination": d, "distance": 50000, "duration": 3600});
                 let mut s1 = json!({"id": format!("{}_s1", rid), "order": 1, "origin": d, "destination": d, "distance": 10000, "duration": 600});
@@ -304,6 +318,9 @@ impl Inst {
             if c[D_TWOSEG] == 1 && t.dir == 0 {
                 segs.push(json!({"id": format!("t{}_s1", i), "routeSegment": format!("{}_s1", rid), "departure": fmt_time(dep + 3600 + sh_min as i64), "passengers": pax, "seated": seated}));
             }
+            if c[D_TWOSEG] == 2 && t.dir == 0 {
+                segs.push(json!({"id": format!("t{}_s1", i), "routeSegment": format!("{}_s2", rid), "departure": fmt_time(dep + 3600 + sh_min as i64), "passengers": pax, "seated": seated}));
+            }
             departures.push(json!({"id": format!("t{}", i), "route": rid, "segments": segs}));
         }
 
@@ -316,6 +333,8 @@ impl Inst {
             (1, true) => (json!([[0, 1200, 2400], [2400, 0, 1200], [2400, 1200, 0]]), json!([[0, 20000, 40000], [40000, 0, 20000], [40000, 20000, 0]])),
             (2, true) => (json!([[0, 4000, 2400], [4000, 0, 1200], [2400, 1200, 0]]), json!([[0, 70000, 40000], [70000, 0, 20000], [40000, 20000, 0]])),
             (4, false) => (json!([[0, 60], [60, 0]]), json!([[0, 1000], [1000, 0]])),
+            // (used by C06's own family only, outside the deviation grid) L2 is marked unreachable in time but lies 2 km away
+            (6, _) => (json!([[0, 1800, 99999999999i64], [1800, 0, 99999999999i64], [99999999999i64, 99999999999i64, 0]]), json!([[0, 30000, 2000], [30000, 0, 2000], [2000, 2000, 0]])),
             (5, _) => (json!([[0, 1800, 1800], [1800, 0, 0], [1800, 0, 0]]), json!([[0, 30000, 30000], [30000, 0, 0], [30000, 0, 0]])),
             (4, true) => (json!([[0, 60, 60], [60, 0, 60], [60, 60, 0]]), json!([[0, 1000, 1000], [1000, 0, 1000], [1000, 1000, 0]])),
             // non-metric: L0->L2 direct is far longer than via L1, L2->L0 is very short
@@ -328,6 +347,10 @@ impl Inst {
             0 => None,
             1 | 5 => Some(json!([{"id": "m0", "location": slot_loc, "start": fmt_time(6 * 3600), "end": fmt_time(7 * 3600), "trackCount": 1}])),
             6 => Some(json!([{"id": "m0", "location": slot_loc, "start": fmt_time(6 * 3600), "end": fmt_time(7 * 3600), "trackCount": 4}])),
+            8 => Some(json!([
+                {"id": "m0", "location": "L0", "start": fmt_time(9 * 3600 + 120), "end": fmt_time(9 * 3600 + 420), "trackCount": 1},
+                {"id": "m1", "location": "L1", "start": fmt_time(11 * 3600 + 1800), "end": fmt_time(12 * 3600 + 1800), "trackCount": 1}
+            ])),
             7 => Some(json!([
                 {"id": "m0", "location": slot_loc, "start": fmt_time(6 * 3600), "end": fmt_time(7 * 3600), "trackCount": 1},
                 {"id": "m1", "location": slot_loc, "start": fmt_time(6 * 3600 + 1800), "end": fmt_time(7 * 3600 + 1800), "trackCount": 1}
@@ -371,6 +394,11 @@ impl Inst {
             8 => Some(json!([
                 {"id": "dA", "location": "L0", "capacity": 1, "allowedTypes": all_types_unlimited},
                 {"id": "dB", "location": "L0", "capacity": 1, "allowedTypes": all_types_unlimited}
+            ])),
+            // (C06's own family only) scarce depot at L0, roomy depot at the "unreachable" L2
+            11 => Some(json!([
+                {"id": "dA", "location": "L0", "capacity": 1, "allowedTypes": all_types_unlimited},
+                {"id": "dY", "location": "L2", "capacity": 5, "allowedTypes": all_types_unlimited}
             ])),
             // depots that exist but can host nothing
             10 => Some(json!([
